@@ -47,6 +47,10 @@ func (a *Analysis) ruleT2T6() {
 			continue
 		}
 		fk := fnKey(en.fn)
+		sfx := ""
+		if en.kind == "W" {
+			sfx = "n"
+		}
 		for _, size := range en.gate.passed() {
 			size := size
 			var L, W int64
@@ -105,11 +109,12 @@ func (a *Analysis) ruleT2T6() {
 					}
 				}
 				if wantW == 0 {
-					r.Bad("G4", fk+"/size", pos, ctx.Name, "a size outside the BIP39 table reaches the encoder")
+					r.Bad("G4"+sfx+"x", fk+"/size", pos, ctx.Name, "a size outside the BIP39 table reaches the encoder")
+					continue
 				} else if n != wantW {
-					r.Bad("G4", fk+"/words", joinPos, ctx.Name, "sentence has %d words, BIP39 requires %d for %d bytes of entropy", n, wantW, wantL)
+					r.Bad("G4"+sfx, fk+"/words", joinPos, ctx.Name, "sentence has %d words, BIP39 requires %d for %d bytes of entropy", n, wantW, wantL)
 				} else {
-					r.OK("G4", fk+"/words", joinPos, ctx.Name, "%d words for %d bytes", n, wantL)
+					r.OK("G4"+sfx, fk+"/words", joinPos, ctx.Name, "%d words for %d bytes", n, wantL)
 				}
 				// entropy width seen by the encoder = hash input length
 				entLen := int64(-1)
@@ -122,9 +127,9 @@ func (a *Analysis) ruleT2T6() {
 				}
 				if wantL != 0 {
 					if entLen != wantL {
-						r.Bad("G4", fk+"/entropy-bytes", pos, ctx.Name, "the encoder hashes %d bytes where BIP39 requires %d", entLen, wantL)
+						r.Bad("G4"+sfx, fk+"/entropy-bytes", pos, ctx.Name, "the encoder hashes %d bytes where BIP39 requires %d", entLen, wantL)
 					} else {
-						r.OK("G4", fk+"/entropy-bytes", pos, ctx.Name, "the checksum is taken over %d bytes", entLen)
+						r.OK("G4"+sfx, fk+"/entropy-bytes", pos, ctx.Name, "the checksum is taken over %d bytes", entLen)
 					}
 				}
 				// ---- T6 separator
@@ -137,9 +142,9 @@ func (a *Analysis) ruleT2T6() {
 				}
 				if lc.Const != nil {
 					if sep.Kind != skConst || sep.S != wantSep {
-						r.Bad("T6", fk+"/separator/"+lc.Name, joinPos, ctx.Name, "words of %s are joined by %v, BIP39 requires %q", lc.Name, join.Sep, wantSep)
+						r.Bad("T6"+sfx, fk+"/separator/"+lc.Name, joinPos, ctx.Name, "words of %s are joined by %v, BIP39 requires %q", lc.Name, join.Sep, wantSep)
 					} else {
-						r.OK("T6", fk+"/separator/"+lc.Name, joinPos, ctx.Name, "joined by %q", wantSep)
+						r.OK("T6"+sfx, fk+"/separator/"+lc.Name, joinPos, ctx.Name, "joined by %q", wantSep)
 						sepSeen[sep.S] = lc.Name
 					}
 				}
@@ -162,10 +167,6 @@ func (a *Analysis) ruleT2T6() {
 						badElem = fmt.Sprintf("word %d is %v", p, shortAVn(el))
 						break
 					}
-					if s.List.G != wantList {
-						okT2 = false
-						badElem = fmt.Sprintf("word %d is taken from %s", p, s.List.Name())
-					}
 					if okL1 {
 						want, ok := spec.Slice(11*(wantW-1-int64(p)), 11)
 						if !ok || s.Idx.Kind != ikBits || !s.Idx.Bits.Equal(want) {
@@ -174,27 +175,62 @@ func (a *Analysis) ruleT2T6() {
 						}
 					}
 				}
-				if wantList == nil {
-					r.Bad("T2", fk+"/list/"+lc.Name, pos, ctx.Name, "no canonical %s list exists in the module", lc.Name)
-				} else if !okT2 {
-					r.Bad("T2", fk+"/list/"+lc.Name, joinPos, ctx.Name, "%s words are not all taken from the canonical %s list (%s): %s", lc.Name, lc.Name, wantList.Name(), badElem)
+				// T2: every word comes from one package-level literal list; T2c: it is the canonical list of K
+				var used *ssa.Global
+				oneList := badElem == "" || okT2 || !strings.Contains(badElem, "never written")
+				for _, el := range arr.Elems {
+					if sv, ok := el.(StrV); ok && sv.Kind == skElem && sv.List != nil {
+						if used == nil {
+							used = sv.List.G
+						} else if used != sv.List.G {
+							oneList = false
+						}
+					} else {
+						oneList = false
+					}
+				}
+				if used == nil || !oneList {
+					r.Bad("T2"+sfx, fk+"/list/"+lc.Name, joinPos, ctx.Name, "%s words are not all elements of one package-level word list: %s", lc.Name, badElem)
 				} else {
-					r.OK("T2", fk+"/list/"+lc.Name, joinPos, ctx.Name, "every word is an element of %s", wantList.Name())
+					if prev, ok := a.EncList[lc.Name]; ok && prev != used {
+						r.Bad("T2"+sfx, fk+"/list/"+lc.Name, joinPos, ctx.Name, "%s words come from %s here and from %s elsewhere", lc.Name, used.Name(), prev.Name())
+					} else {
+						a.EncList[lc.Name] = used
+						dup := ""
+						for other, g := range a.EncList {
+							if g == used && other != lc.Name {
+								dup = other
+							}
+						}
+						if dup != "" {
+							r.Bad("T2"+sfx, fk+"/list/"+lc.Name, joinPos, ctx.Name, "%s and %s are encoded with the same list %s", lc.Name, dup, used.Name())
+						} else {
+							r.OK("T2"+sfx, fk+"/list/"+lc.Name, joinPos, ctx.Name, "every word is an element of %s", used.Name())
+						}
+					}
+					if wantList == nil {
+						r.Bad("T2"+sfx+"c", fk+"/canonical-list/"+lc.Name, pos, ctx.Name, "no word list in the module holds the canonical %s content", lc.Name)
+					} else if used != wantList {
+						r.Bad("T2"+sfx+"c", fk+"/canonical-list/"+lc.Name, joinPos, ctx.Name, "%s words are taken from %s, but the canonical %s list is %s", lc.Name, used.Name(), lc.Name, wantList.Name())
+					} else {
+						r.OK("T2"+sfx+"c", fk+"/canonical-list/"+lc.Name, joinPos, ctx.Name, "%s is the canonical %s list", used.Name(), lc.Name)
+					}
 				}
 				nL1++
 				if okL1 {
-					r.OK("L1", fk+"/layout", joinPos, ctx.Name, "word p = list[S⟨11·(%d-1-p):+11⟩] for every p, S = %v; all %d entropy bits used exactly once", wantW, spec, 8*wantL)
+					r.OK("L1"+sfx, fk+"/layout", joinPos, ctx.Name, "word p = list[S⟨11·(%d-1-p):+11⟩] for every p, S = %v; all %d entropy bits used exactly once", wantW, spec, 8*wantL)
 				} else if wantL != 0 {
 					kind := Violated
 					if strings.Contains(badElem, "⊤") {
 						kind = Undecided
 					}
-					r.Add("L1", fk+"/layout", joinPos, ctx.Name, kind, "emitted words do not follow the BIP39 bit layout: %s", badElem)
+					r.Add("L1"+sfx, fk+"/layout", joinPos, ctx.Name, kind, "emitted words do not follow the BIP39 bit layout: %s", badElem)
 				}
 			}
 		}
 	}
 	r.Counts["T2.contexts"] = nT2
+	_ = nT2
 	r.Counts["G4.contexts"] = nG4
 	r.Counts["L1.contexts"] = nL1
 	a.ruleTokeniser(sepSeen)
@@ -231,34 +267,34 @@ func (a *Analysis) ruleTokeniser(sepSeen map[string]string) {
 	}
 	pos := a.P.Pos(a.CM.Pos())
 	if tok == nil {
-		r.Unk("T6", "CheckMnemonic/tokeniser", pos, "", "no tokeniser call found")
+		r.Unk("T6v", "CheckMnemonic/tokeniser", pos, "", "no tokeniser call found")
 		return
 	}
 	tp := a.P.InstrPos(tok.Site)
 	in, _ := tok.In.(StrV)
 	if in.Kind != skNFKD {
-		r.Bad("T6", "CheckMnemonic/tokeniser-input", tp, "", "the tokeniser input is %v, not the NFKD form of the argument", tok.In)
+		r.Bad("T6v", "CheckMnemonic/tokeniser-input", tp, "", "the tokeniser input is %v, not the NFKD form of the argument", tok.In)
 	} else {
-		r.OK("T6", "CheckMnemonic/tokeniser-input", tp, "", "tokeniser runs on %v", tok.In)
+		r.OK("T6v", "CheckMnemonic/tokeniser-input", tp, "", "tokeniser runs on %v", tok.In)
 	}
 	if tok.Fn == "strings.Fields" {
-		r.OK("T6", "CheckMnemonic/tokeniser-separator", tp, "", "strings.Fields splits on any White_Space; list words contain none (T5)")
+		r.OK("T6v", "CheckMnemonic/tokeniser-separator", tp, "", "strings.Fields splits on any White_Space; list words contain none (T5)")
 		return
 	}
 	sep, _ := tok.Sep.(StrV)
 	if sep.Kind != skConst {
-		r.Bad("T6", "CheckMnemonic/tokeniser-separator", tp, "", "separator %v is not a constant", tok.Sep)
+		r.Bad("T6v", "CheckMnemonic/tokeniser-separator", tp, "", "separator %v is not a constant", tok.Sep)
 		return
 	}
 	ok := true
 	for s, lang := range sepSeen {
 		if norm.NFKD.String(s) != sep.S {
-			r.Bad("T6", "CheckMnemonic/tokeniser-separator", tp, "", "encoder joins %s with %q whose NFKD form is %q, but the validator splits on %q", lang, s, norm.NFKD.String(s), sep.S)
+			r.Bad("T6v", "CheckMnemonic/tokeniser-separator", tp, "", "encoder joins %s with %q whose NFKD form is %q, but the validator splits on %q", lang, s, norm.NFKD.String(s), sep.S)
 			ok = false
 		}
 	}
 	if ok {
-		r.OK("T6", "CheckMnemonic/tokeniser-separator", tp, "", "splits on %q = NFKD of every separator the encoder uses (%d)", sep.S, len(sepSeen))
+		r.OK("T6v", "CheckMnemonic/tokeniser-separator", tp, "", "splits on %q = NFKD of every separator the encoder uses (%d)", sep.S, len(sepSeen))
 	}
 }
 
